@@ -84,6 +84,44 @@ def framesOf : Nat → List (List Nat) → List (List Nat) × Next
     | (.msg b, rest) => let r := framesOf k rest; (b :: r.1, r.2)
     | (e, _) => ([], e)
 
+/-! ### a client that keeps its side of the connection open
+
+The stream is the segments that have arrived so far and no EOF will follow: a `ReadAll(LimitReader(conn, n))` that
+has gathered fewer than `n` bytes stays blocked in `conn.Read` (until somebody closes the conn under it). -/
+
+/-- `ioutil.ReadAll(io.LimitReader(conn, n))` on an open stream; `none` = still blocked -/
+def readAllLimitOpen (n : Nat) (cs : List (List Nat)) : Option (List Nat × List (List Nat)) :=
+  let r := readAllLimit n cs
+  if r.1.length < n then none else some r
+
+/-- result of one `GetNextMessage` on an open stream -/
+inductive NextO
+  | msg (bytes : List Nat)
+  | err                      -- header error (a complete header that does not parse)
+  | pending                  -- blocked in Read: header or body incomplete
+  deriving DecidableEq, Repr
+
+/-- `tcpPlayerConn.GetNextMessage` on an open stream -/
+def getNextOpen (cs : List (List Nat)) : NextO × List (List Nat) :=
+  match readAllLimitOpen headLen cs with
+  | none => (.pending, [])
+  | some h =>
+    match parseHeader h.1 with
+    | none => (.err, h.2)
+    | some size =>
+      match readAllLimitOpen size h.2 with
+      | none => (.pending, [])
+      | some b => (.msg (h.1 ++ b.1), b.2)
+
+/-- the read loop's view of an open stream: the messages it gets, then `err` (the reader ends the session) or
+`pending` (the reader is parked in Read: only the server's side can end the session now) -/
+def framesOpen : Nat → List (List Nat) → List (List Nat) × NextO
+  | 0, _ => ([], .err)
+  | k + 1, cs =>
+    match getNextOpen cs with
+    | (.msg b, rest) => let r := framesOpen k rest; (b :: r.1, r.2)
+    | (e, _) => ([], e)
+
 /-- `WSConn.GetNextMessage` (ws_acceptor.go) on one websocket message (the websocket layer has reassembled its fragments):
 exactly one packet per message — shorter than a header, a header error, a body shorter or LONGER than announced are errors -/
 def wsNext (m : List Nat) : Next :=
